@@ -75,3 +75,53 @@ func (P *Program) globalInitDynType(g *ssa.Global) (types.Type, bool) {
 	}
 	return nil, false
 }
+
+// globalInitCall: a package-level variable initialised by a call  F(c1, ..., cn)  of a declared
+// function with constant arguments; returns F, the argument expressions and the type info.
+func (P *Program) globalInitCall(g *ssa.Global) (*types.Func, []ast.Expr, *types.Info, bool) {
+	pkg := P.pkgs[g.Pkg.Pkg.Path()]
+	if pkg == nil {
+		return nil, nil, nil, false
+	}
+	for _, f := range pkg.Syntax {
+		for _, d := range f.Decls {
+			gd, ok := d.(*ast.GenDecl)
+			if !ok || gd.Tok != token.VAR {
+				continue
+			}
+			for _, sp := range gd.Specs {
+				vs := sp.(*ast.ValueSpec)
+				for i, n := range vs.Names {
+					if n.Name != g.Name() || i >= len(vs.Values) || len(vs.Values) != len(vs.Names) {
+						continue
+					}
+					call, ok := ast.Unparen(vs.Values[i]).(*ast.CallExpr)
+					if !ok {
+						return nil, nil, nil, false
+					}
+					var id *ast.Ident
+					switch fx := call.Fun.(type) {
+					case *ast.Ident:
+						id = fx
+					case *ast.SelectorExpr:
+						id = fx.Sel
+					}
+					if id == nil {
+						return nil, nil, nil, false
+					}
+					fo, ok := pkg.TypesInfo.Uses[id].(*types.Func)
+					if !ok {
+						return nil, nil, nil, false
+					}
+					for _, a := range call.Args {
+						if tv, ok := pkg.TypesInfo.Types[a]; !ok || tv.Value == nil {
+							return nil, nil, nil, false
+						}
+					}
+					return fo, call.Args, pkg.TypesInfo, true
+				}
+			}
+		}
+	}
+	return nil, nil, nil, false
+}
